@@ -363,4 +363,4 @@ where
 
 #[cfg(all(transparencies_stretto_verif, any(kani, test)))]
 #[path = "/verif/harness/h_builder.rs"]
-mod verif_harness;
+pub(crate) mod verif_harness;
